@@ -46,7 +46,24 @@ def enumerate_cases():
 
 @S.composite
 def strategy_(g):
-    case = GG.gen(g, n_pose=(2, 6), n_lm=(0, 3), n_loops=(0, 3), features=("parallel", "reversed", "permute", "ids", "custom", "quat-signs", "lm_odo"), custom_flavour="ana")
+    if g.choice([False, False, True]):
+        # a large valid graph (70..250 edges) with ONE inconsistent edge somewhere among the valid ones
+        base = g.choice(["se2", "se3"])
+        pk = R.POINT_OF[base]
+        nv = g.integer(4, 12)
+        nl = g.integer(2, 5)
+        ne = g.integer(70, 250)
+        rnd = g.rnd
+        edges = []
+        for _ in range(ne):
+            if rnd.random() < 0.5:
+                i, j = rnd.sample(range(nv), 2)
+                edges.append({"t": "odo", "ids": [i, j]})
+            else:
+                edges.append({"t": "lm", "ids": [rnd.randrange(nv), nv + rnd.randrange(nl)]})
+        bad_kind = g.choice(["offset-type", "offset-none", "measurement-type", "information-shape", "vertex-count", "unknown-id", "pose-types", "none"])
+        return {"shape": "big", "base": base, "nv": nv, "nl": nl, "edges": edges, "bad": bad_kind, "pos": rnd.randrange(ne), "like": g.choice(["odo", "lm"])}
+    case = GG.gen(g, n_pose=(2, 6), n_lm=(0, 3), n_loops=(0, 3), features=("parallel", "reversed", "permute", "ids", "custom", "quat-signs", "lm_odo", "pure-translation-steps"), custom_flavour="ana")
     case["shape"] = "graph"
     case["break_edge"] = g.rnd.randrange(10**6)
     case["break_pos"] = g.rnd.randrange(10**6)
@@ -58,7 +75,11 @@ def strategy(tier):
 
 
 def summarise(case):
-    return case if case["shape"] == "combo" else GG.summarise(case)
+    if case["shape"] == "combo":
+        return case
+    if case["shape"] == "big":
+        return {k: (v if k != "edges" else "%d edges" % len(v)) for k, v in case.items()}
+    return GG.summarise(case)
 
 
 def _pose(kind):
@@ -205,7 +226,69 @@ def _check_graph(case, ctx):
         return ctx.fail("unknown-vertex-accepted", "a graph with an edge naming the unknown id %r was constructed" % unknown)
 
 
+def _check_big(case, ctx):
+    base, pk = case["base"], R.POINT_OF[case["base"]]
+    nv, nl = case["nv"], case["nl"]
+    ctx.event("big-graph")
+    ctx.event("big-graph-bad:" + case["bad"])
+    ctx.nontrivial(True)
+    verts = [gs.Vertex(i, _pose(base)) for i in range(nv)] + [gs.Vertex(nv + i, _pose(pk)) for i in range(nl)]
+    c, cp = R.CDIM[base], R.CDIM[pk]
+
+    def mk(e):
+        if e["t"] == "odo":
+            return gs.EdgeOdometry(list(e["ids"]), np.eye(c), _pose(base))
+        return gs.EdgeLandmark(list(e["ids"]), np.eye(cp), _pose(pk), _pose(base), offset_id=0)
+
+    edges = [mk(e) for e in case["edges"]]
+    bad = case["bad"]
+    pos = case["pos"] % len(edges)
+    # the inconsistent edge is modelled on a valid edge of the same kind that occurs EARLIER in the list when possible
+    kind = case["like"]
+    cands = [i for i, e in enumerate(case["edges"]) if e["t"] == kind and i > 0]
+    if bad != "none":
+        if not cands:
+            return
+        pos = cands[pos % len(cands)]
+        e = edges[pos]
+        if bad == "offset-type":
+            if kind != "lm":
+                return
+            e.offset = _pose("se3" if base == "se2" else "se2")
+        elif bad == "offset-none":
+            if kind != "lm":
+                return
+            e.offset = None
+        elif bad == "measurement-type":
+            e.estimate = _pose("r3" if (base == "se2" or kind == "lm" and pk == "r2") else "r2")
+        elif bad == "information-shape":
+            n0 = e.information.shape[0]
+            e.information = np.eye(n0 + 1)
+        elif bad == "vertex-count":
+            e.vertex_ids = list(e.vertex_ids) + [0]
+        elif bad == "unknown-id":
+            e.vertex_ids = [e.vertex_ids[0], 10**6]
+        elif bad == "pose-types":
+            e.vertex_ids = [e.vertex_ids[0], nv] if kind == "odo" else [e.vertex_ids[0], (e.vertex_ids[0] + 1) % nv]
+    try:
+        gs.Graph(edges, verts)
+        raised = None
+    except Exception as exc:  # noqa: BLE001
+        raised = exc
+    if bad == "none":
+        if raised is not None:
+            return ctx.fail("consistent-edge-rejected", "a large graph of %d consistent edges was rejected: %s: %s" % (len(edges), type(raised).__name__, raised))
+        for e, ed in zip(edges, case["edges"]):
+            if [v.id for v in e.vertices] != list(ed["ids"]) or any(v is not verts[i] for v, i in zip(e.vertices, ed["ids"])):
+                return ctx.fail("edge-bound-to-wrong-vertex", "large graph: an edge is not bound to the vertices it names")
+        return
+    if raised is None:
+        return ctx.fail("inconsistent-edge-accepted:in-large-graph", "a graph of %d edges with one inconsistent %s edge (%s) at position %d was accepted" % (len(edges), kind, bad, pos))
+
+
 def check(case, ctx):
     if case["shape"] == "combo":
         return _check_combo(case, ctx)
+    if case["shape"] == "big":
+        return _check_big(case, ctx)
     return _check_graph(case, ctx)
